@@ -300,7 +300,25 @@ class RegexType(ScalarType):
         )
 
 
-def _identity(value: T) -> T:
+def _transparent(value: T) -> T:
+    # Transparent scalar: the value is used as is, but it has to fit in a JSON
+    # response (or come from one): NaN and +/-Infinity, at any depth, do not.
+    stack = [value]  # type: List[Any]
+    seen = set()
+    while stack:
+        current = stack.pop()
+        if isinstance(current, float):
+            if current != current or current in (float("inf"), float("-inf")):
+                raise ValueError(
+                    "Scalar cannot represent non finite value: %s" % current
+                )
+        elif isinstance(current, (list, tuple, dict)):
+            if id(current) in seen:
+                continue
+            seen.add(id(current))
+            stack.extend(
+                current.values() if isinstance(current, dict) else current
+            )
     return value
 
 
@@ -316,12 +334,13 @@ def default_scalar(
 
     This should be used as a stand in for custom scalar when the exact
     implementation is not known (e.g. when generating a schema). Values will be
-    serialised and parsed as is without any validation.
+    serialised and parsed as is without any validation, except that non finite
+    floats (which have no JSON representation) are rejected at any depth.
     """
     return ScalarType(
         name,
-        serialize=_identity,
-        parse=_identity,
+        serialize=_transparent,
+        parse=_transparent,
         parse_literal=lambda node, _: _untyped_literal(node),
         description=description,
         nodes=nodes,
